@@ -574,15 +574,19 @@ class ResourceScenario(ScenarioData):
         # Working hours are defined in local time, but slots are in UTC
         resource_tz = self.property.get("timezone", self.scenarioIdx)
 
-        # Check if resource has a shift reference.  A shift inherited from an enclosing
-        # group does not override working hours the resource declares itself.
+        # Working hours come from the NEAREST declaration: the resource itself, else the
+        # closest enclosing group that names a shift or gives hours.  (Both attributes
+        # are inherited separately, so a shift named by an outer group must not beat
+        # hours given by the resource or by a group in between.)
         shift = self.property.get("shifts", self.scenarioIdx)
-        if (
-            shift
-            and not self.property.provided("shifts", self.scenarioIdx)
-            and self.property.provided("workinghours", self.scenarioIdx)
-        ):
-            shift = None
+        node: Any = self.property
+        while node is not None:
+            if node.provided("shifts", self.scenarioIdx):
+                break
+            if node.provided("workinghours", self.scenarioIdx):
+                shift = None
+                break
+            node = node.parent
         if shift:
             # Leaves declared on the shift apply to everybody working that shift
             for leave in shift.get("leaves", self.scenarioIdx) or []:
